@@ -32,7 +32,7 @@ def pool():
             dt(1900, 1, 1), dt(1900, 1, 2), dt(1900, 3, 1), dt(1900, 3, 1, 12), dt(2020, 1, 1), dt(2020, 1, 1, 6),
             dt(9999, 12, 31),
             # values that differ by a relative 1e-10 or less (a tolerance-based equality would merge them)
-            10 ** 10 + 1, 43831.25, 43831.250001, dt(2020, 1, 1, 6, 0, 1), dt(2020, 1, 1, 6, 0, 0, 1000), 1e-3 + 1e-14]
+            2 ** 53, 9007199254740992.0, 9007199254740994.0, 10 ** 10 + 1, 43831.25, 43831.250001, dt(2020, 1, 1, 6, 0, 1), dt(2020, 1, 1, 6, 0, 0, 1000), 1e-3 + 1e-14]
 
 
 def enc_val(v):
